@@ -1005,6 +1005,21 @@ class Evaluator:
                 if isinstance(b, TStr) and b.is_const() and isinstance(a, TConst) and isinstance(a.value, int):
                     return lit(b.const() * a.value)
             return self.opaque(f'operator {type(e.op).__name__}')
+        if isinstance(e, ast.BoolOp) and len(e.values) == 2 and not any(
+                isinstance(x, (ast.Compare, ast.BoolOp)) or (isinstance(x, ast.UnaryOp) and isinstance(x.op, ast.Not)) for x in e.values):
+            # `a or b` / `a and b` as VALUES: the first operand decides which of the two the expression is
+            a = self.eval(e.values[0], env, fn, depth)
+            if not isinstance(a, (Cond, TOpaque)):
+                t = self.truthy(a)
+                if isinstance(e.op, ast.Or):
+                    if t == TRUE:
+                        return a
+                    b = self.eval(e.values[1], env, fn, depth)
+                    return b if t == FALSE else self._alt(t, a, b)
+                if t == FALSE:
+                    return a
+                b = self.eval(e.values[1], env, fn, depth)
+                return b if t == TRUE else self._alt(t, b, a)
         if isinstance(e, (ast.Compare, ast.BoolOp)) or (isinstance(e, ast.UnaryOp) and isinstance(e.op, ast.Not)):
             return self.cond(e, env, fn, depth)
         if isinstance(e, ast.Call):
